@@ -62,6 +62,12 @@ def seed_conn(w):
     ow = s.Wire()
     for o in (n, ow):
         w.add(o)
+    w.discover()
+    # a proxy that remembers a wire it is no longer on: connected through the proxy, taken off through
+    # the instance's own pin
+    px = w.proxy(w.idx(u0), w.idx(lp.pins[1]))
+    c.wires[1].connect_pin(px)
+    c.wires[1].disconnect_pin(u0.pins[lp.pins[1]])
 
 
 def seed_children(w):
@@ -195,6 +201,9 @@ def seed_repoint(w):
     d2 = lib.create_definition(name="d2")
     d2.create_port(name="A", pins=1)
     d2.create_port(name="B", pins=1)
+    d3 = lib.create_definition(name="d3")   # first port fits, the second does not
+    d3.create_port(name="A", pins=1)
+    d3.create_port(name="B", pins=2)
     top = lib.create_definition(name="top")
     c = top.create_cable(name="c", wires=3)
     u = top.create_child(name="u", reference=d0)
